@@ -57,13 +57,24 @@ def gen_program(rnd):
             for _ in range(rnd.randrange(0, 4)):
                 stmts.extend(filler(rnd, parity_dep))
         files.append(apm.SrcFile(f"f{i}.mac", stmts))
-    kind = rnd.choice(["none", "const", "diff", "diff", "diff2", "viasym", "shiftdiv", "self", "selfnonlin", "second", "dotlead", "dotlead-diff", "aliascoef", "aliascoef",
-                       "chain2", "fwdmul"])
+    aux = {}
+    if rnd.random() < 0.25:
+        # part of one file lives in an included file (its labels exported): a difference may then mix labels of the two
+        f = rnd.choice(files)
+        if len(f.stmts) >= 3:
+            a = rnd.randrange(0, len(f.stmts) - 1)
+            b = rnd.randrange(a + 1, len(f.stmts) + 1)
+            moved = [apm.label(s.labels[0][0], extern=True) if (s.k == "nop" and s.labels) else s for s in f.stmts[a:b]]
+            name = f"inc12x{files.index(f)}.mac"
+            aux[name] = apm.SrcFile(name, moved)
+            f.stmts[a:b] = [apm.include(name)]
+    kind = rnd.choice(["none", "const", "diff", "diff", "diff2", "viasym", "shiftdiv", "shiftdiv", "self", "selfnonlin", "second", "dotlead", "dotlead-diff", "aliascoef",
+                       "aliascoef", "chain2", "fwdmul"])
     K = rnd.choice([0, 0o1000, 0o2000, 0o40000, 0o100000, 0o400, 0o157000])
     if rnd.random() < 0.15:
         # odd bases: only byte-sized content is meaningful there
         K += 1
-        for f in files:
+        for f in files + list(aux.values()):
             f.stmts = [s for s in f.stmts if s.k not in ("insn", "wordlist", "data") and not (s.k == "simple")]
             f.stmts = [s for s in f.stmts if not (s.k == "blk" and s.d == ".align")]
             for s in list(f.stmts):
@@ -110,7 +121,11 @@ def gen_program(rnd):
         expr = ("bin", "-", ("bin", "+", apm.num(K), ("bin", "*", ("sym", "kmul"), ("sym", a))), ("bin", "*", ("sym", "kmul"), ("sym", b)))
     elif kind == "shiftdiv":
         expr = ("bin", "+", apm.num(K), rnd.choice([("bin", "<<", ("grp", diff()), apm.num(1)), ("bin", "/", ("grp", diff()), apm.num(2)),
-                                                    ("bin", "&", ("grp", diff()), apm.num(0o177776))]))
+                                                    ("bin", "&", ("grp", diff()), apm.num(0o177776)), ("bin", ">>", ("grp", diff()), apm.num(rnd.choice([1, 2]))),
+                                                    ("bin", "*", ("grp", ("bin", ">>", ("grp", diff()), apm.num(1))), apm.num(2)),
+                                                    ("bin", "_", ("grp", diff()), apm.num(rnd.choice([1, -1])))]))
+        if K == 0:
+            expr = ("bin", "+", apm.num(0o2000), expr[3])      # (a negative difference shifted right stays negative)
     elif kind == "self":
         expr = rnd.choice([("bin", "+", ("sym", rnd.choice(labels)), apm.num(2)), ("bin", "+", ("dot",), apm.num(K)),
                            ("bin", "-", ("bin", "*", apm.num(2), ("sym", rnd.choice(labels))), ("sym", rnd.choice(labels)))])
@@ -184,7 +199,9 @@ def gen_program(rnd):
         files[-1].stmts.append(apm.data(".word", *[("sym", l) for l in labels[:12]]))
     else:
         files[-1].stmts.append(apm.data(".byte", *[("bin", "&", ("sym", l), apm.num(0o377)) for l in labels[:12]]))
-    return apm.Program(files), f"{tag}|{'parity' if parity_dep else 'plain'}", skip_tag, kind, parity_dep
+    if aux:
+        tag += "|inc"
+    return apm.Program(files, aux=aux), f"{tag}|{'parity' if parity_dep else 'plain'}", skip_tag, kind, parity_dep
 
 
 def run_shard(spec):
@@ -297,7 +314,7 @@ def run_case(case, cnt=None, root=None):
             # listed finding D11: zero-net expression rejected with recursive-definition when parity-dependent statements are present
             address_dependent = case["skip"].startswith("skip") or any(
                 (s.k == "simple" and s.d in (".even", ".odd")) or (s.k == "blk" and s.d == ".align") or (s.k == "dot" and not getattr(s, "is_base", False) and s is not prog.files[0].stmts[0])
-                for f in prog.files for s in f.stmts)
+                for f in list(prog.files) + list(prog.aux.values()) for s in f.stmts)
             zero_net = case["kind"] in ("diff", "diff2", "viasym", "shiftdiv", "dotlead-diff", "aliascoef", "chain2", "fwdmul")
             # ... and its two other listed shapes: a label reached through a chain of two or more symbols, a product of a label with a
             # constant that is defined through a later constant
